@@ -155,6 +155,7 @@ class mm_reader {
                 // line already holds the matrix sizes
                 is.clear(); is.str(line);
                 precondition(is >> n >> m >> nnz, format_error());
+                precondition(n >= 0 && m >= 0, format_error("negative matrix size"));
             }
 
             if (row_beg < 0) row_beg = 0;
@@ -187,6 +188,17 @@ class mm_reader {
 
                 i -= 1;
                 j -= 1;
+
+                {
+                    // The entry (and its mirror image for symmetric
+                    // storage) has to be inside the matrix.
+                    const ptrdiff_t ii = static_cast<ptrdiff_t>(i);
+                    const ptrdiff_t jj = static_cast<ptrdiff_t>(j);
+                    precondition(
+                            0 <= ii && ii < n && 0 <= jj && jj < m &&
+                            (!_symmetric || (jj < n && ii < m)),
+                            format_error("index out of range"));
+                }
 
                 v = read_value<Val>(is);
 
